@@ -12,6 +12,8 @@ From Coq Require Import ZArith List Lia Bool.
 From LZ4V Require Import Gen.Consts Spec.BlockSpec Model.Mem Model.Dec Model.DecApi.
 From LZ4V Require Import Proofs.DecSafe Proofs.DecApiSafe.
 From LZ4V Require Import Proofs.DecRefineBase Proofs.DecRefineSafe Proofs.DecRefineTop Proofs.DecRefineApi.
+From LZ4V Require Import Model.DecSem.
+From LZ4V Require Import Proofs.DecConverse Proofs.DecConversePartial Proofs.DecConversePartialTop.
 Import ListNotations.
 Local Open Scope Z_scope.
 
@@ -76,3 +78,45 @@ Example C16_nonvacuous :
                           (store_list (mem_of_list 0 [7; 7; 7; 7; 7; 7; 7; 7; 7; 7]) (-3) hist) in
       (r, k, load_list m 0 10)) = (6, true, [97; 98; 120; 121; 122; 97; 7; 7; 7; 7]).
 Proof. vm_compute. split; reflexivity. Qed.
+
+(* Converse for the partial entry points: ANY bytes, any target and capacity, LZ4_FAST_DEC_LOOP
+   on or off, every history placement.  Whenever LZ4_decompress_safe_partial(_usingDict) reports
+   success with result r, either some parsed sequence of the input has match offset 0 (finding
+   F5), or the first r bytes of the destination are the first r bytes of [specified_output]: the
+   parsed sequences of the input executed in order with the specification's own read_len /
+   copy_match for as long as the input provides them (a literal run cut short by the end of the
+   input contributes the literals that are present).  For an input that is a complete block the
+   specified output is exactly the decoded content ([C16_specified_output_valid]). *)
+Theorem C16_partial_sound :
+  forall (fastloop : bool) (pl : placement) (B hist : list Z) (srcm dictm : mem) (t cap : Z) (m0 : mem),
+    (forall a, 0 <= get srcm a < 256) -> bytes B -> src_at srcm 0 B -> hist_placed pl hist dictm m0 ->
+    prefix_sound (decompress_usingDict fastloop true srcm (Z.of_nat (length B)) t cap pl dictm (Z.of_nat (length hist)) m0)
+                 (lastn (Z.to_nat 65536) hist) B.
+Proof. exact partial_sound. Qed.
+Print Assumptions C16_partial_sound.
+
+Theorem C16_partial_sound_safe :
+  forall (fastloop : bool) (B : list Z) (srcm : mem) (t cap : Z) (m0 : mem),
+    (forall a, 0 <= get srcm a < 256) -> bytes B -> src_at srcm 0 B ->
+    prefix_sound (decompress_safe_partial fastloop srcm (Z.of_nat (length B)) t cap m0) [] B.
+Proof. exact partial_sound_nodict. Qed.
+Print Assumptions C16_partial_sound_safe.
+
+Theorem C16_specified_output_valid :
+  forall (hist B D : list Z), spec_decode hist B = Some D -> specified_output hist B = D.
+Proof. exact specified_output_valid. Qed.
+Print Assumptions C16_specified_output_valid.
+
+(* a truncated input (the block of C16_nonvacuous cut inside its final literal run): the partial
+   decoder succeeds with the 11 bytes the input defines; the specification's parser rejects the
+   truncated block, the specified output is those 11 bytes *)
+Example C16_converse_nonvacuous :
+  let hist := [120; 121; 122] in
+  let B := [35; 97; 98; 5; 0; 80; 99; 100] in
+  spec_decode hist B = None
+  /\ specified_output hist B = [97; 98; 120; 121; 122; 97; 98; 120; 121; 99; 100]
+  /\ zero_off (S (length B)) B = false
+  /\ (let '(r, m, k) := decompress_usingDict true true (mem_of_list 0 B) 8 20 20 PPrefix empty 3
+                          (store_list (mem_of_list 0 [7; 7; 7; 7; 7; 7; 7; 7; 7; 7; 7; 7; 7; 7; 7; 7; 7; 7; 7; 7]) (-3) hist) in
+      (r, load_list m 0 12)) = (11, [97; 98; 120; 121; 122; 97; 98; 120; 121; 99; 100; 7]).
+Proof. vm_compute. repeat split; reflexivity. Qed.
